@@ -58,6 +58,7 @@ func VerifC06_Overlapping() {
 		return
 	}
 	verifReach("C06/overlap/started")
+	verifSharedBegin(sess.client)
 	var wg sync.WaitGroup
 	var r1, r2 ExecutionResult
 	wg.Add(2)
@@ -69,6 +70,7 @@ func VerifC06_Overlapping() {
 	cerr := sess.client.Close()
 	verifAssert("C06/overlap/close", cerr == nil)
 	sess.srvDone.Wait()
+	verifSharedCheck("C06/overlap/client-state-accessed-under-its-mutex")
 	verifReach("C06/overlap/end")
 }
 
